@@ -1,6 +1,6 @@
 #!/bin/bash
-# Confirms a seeded change in its scratch worktree: demo passes on the pinned tree, fails with the
-# patch; the repository's own suite (minus the 4 always-failing tests) still passes with the patch.
+# Confirms a seeded change in its scratch worktree: demo passes on the unmodified tree, fails with the
+# patch; the repository's own suite (minus the always-failing tests) still passes with the patch.
 ID=$1; VAR=$2
 WT=/tmp/seed/$ID/wt; OUT=/tmp/seed/$ID/out/$VAR
 LOG=$OUT/confirm.log; : > $LOG
@@ -10,13 +10,32 @@ NAME=$(grep -o "\-\-test [A-Za-z0-9_]*" $README | head -1 | awk '{print $2}')
 DIR=${PKG#inkayaku_}
 cd $WT || exit 2
 git checkout -q -- . ; git clean -fdq -e target
-mkdir -p $DIR/tests; cp $OUT/demo/*.rs $DIR/tests/
-echo "## demo on pinned tree" >> $LOG
-cargo test -p $PKG --offline --test $NAME >> $LOG 2>&1; RC_CLEAN=$?
+INSTALL=$(ls $OUT/demo/install_mod_line.diff 2>/dev/null)
+DEMOFILES=$(find $OUT/demo -name '*.rs')
+install_demo() {
+  if [ -n "$INSTALL" ]; then
+    git apply $INSTALL; for f in $DEMOFILES; do cp $f engine_core/src/engine/; done
+  else
+    mkdir -p $DIR/tests; for f in $DEMOFILES; do cp $f $DIR/tests/; done
+  fi
+}
+remove_demo() {
+  if [ -n "$INSTALL" ]; then git apply -R $INSTALL; for f in $DEMOFILES; do rm -f engine_core/src/engine/$(basename $f); done
+  else for f in $DEMOFILES; do rm -f $DIR/tests/$(basename $f); done; fi
+}
+run_demo() {
+  if [ -n "$INSTALL" ]; then FILTER=$(basename $(echo $DEMOFILES | awk '{print $1}') .rs); cargo test -p $PKG --offline $FILTER
+  else cargo test -p $PKG --offline --test $NAME; fi
+}
+install_demo
+echo "## demo on unmodified tree" >> $LOG
+run_demo >> $LOG 2>&1; RC_CLEAN=$?
+remove_demo
 git apply $OUT/patch.diff >> $LOG 2>&1 || { echo "$ID/$VAR APPLY-FAILED" >> /tmp/seed/confirm_summary.txt; exit 1; }
+install_demo
 echo "## demo with patch" >> $LOG
-cargo test -p $PKG --offline --test $NAME >> $LOG 2>&1; RC_PATCH=$?
-rm -f $(for f in $OUT/demo/*.rs; do echo $DIR/tests/$(basename $f); done)
+run_demo >> $LOG 2>&1; RC_PATCH=$?
+remove_demo
 echo "## suite with patch" >> $LOG
 timeout 1500 cargo test --workspace --no-fail-fast --offline -- --skip run_all > $OUT/suite.log 2>&1
 PASSED=$(grep -E "^test .* \.\.\. ok$" $OUT/suite.log | wc -l)
